@@ -97,7 +97,7 @@ ProcessAlive == alive
 CountersSane == connected >= Cardinality(Sentinels) /\ inflight >= 0
 
 (* ---- mutation plans for the harness: which frame of which session is damaged how ---------------------------- *)
-Sessions == {"ctl", "prelogin", "upload", "download", "fupload", "fdownload"}
+Sessions == {"ctl", "prelogin", "upload", "download", "fupload", "fdownload"}   \* (+ two "nonreader" connections added by the driver: logged in, asking a lot, never reading)
 Mutations == {"trunc", "total", "datasz", "count", "flen", "dropfield", "shortid", "garbage", "badhs", "size", "dup"}
 Applicable(s, m) ==
   CASE s = "prelogin" -> m \in {"trunc", "total", "datasz", "count", "flen", "garbage", "badhs", "dropfield"}
